@@ -139,7 +139,9 @@ impl AtomicUsize {
             self.0.compare_exchange(current, new, success, failure)
         }
     }
-    /// Modelled without spurious failures (a subset of the allowed behaviours).
+    /// The weak form may fail spuriously (LL/SC targets really do): under simulation the seeded
+    /// choice stream makes one attempt in four fail although the value matches, which a retry
+    /// loop absorbs and a single-shot use does not.
     #[inline]
     pub fn compare_exchange_weak(
         &self,
@@ -148,6 +150,9 @@ impl AtomicUsize {
         success: Ordering,
         failure: Ordering,
     ) -> Result<usize, usize> {
+        if sim::engaged() && sim::choose(4) == 0 {
+            return Err(self.load(failure));
+        }
         self.compare_exchange(current, new, success, failure)
     }
     #[inline]
@@ -303,6 +308,9 @@ macro_rules! shim_int {
             }
             #[inline]
             pub fn compare_exchange_weak(&self, current: $ty, new: $ty, success: Ordering, failure: Ordering) -> Result<$ty, $ty> {
+                if sim::engaged() && sim::choose(4) == 0 {
+                    return Err(self.load(failure));
+                }
                 self.compare_exchange(current, new, success, failure)
             }
             #[inline]
